@@ -575,6 +575,19 @@ def near_kink(defn, env):
     return hit
 
 
+def outside_domain(defn, state, control=None, dt=0.1):
+    """For free-running sequences: True when the current estimate has wandered into the exp-overflow region
+    (known finding, probed elsewhere on purpose) or onto a kink of |.| / an angle-wrap idiom."""
+    env = {defn["dt"]: dt}
+    env.update({s: float(state[s]) for s in defn["state"]})
+    env.update({c: float((control or {}).get(c, 0.0)) for c in defn["control"]})
+    env.update(defn.get("calibration_map", {}))
+    try:
+        return max_exp_argument(defn, env) > EXP_ARG_LIMIT or near_kink(defn, env)
+    except Exception:  # noqa: BLE001 - non-finite state
+        return True
+
+
 def point(rng, defn, scale=None, avoid_exp_overflow=True):
     """Named input point: dt, every state and control.
 
